@@ -1109,6 +1109,8 @@ def native_attr(it, o, name, node, frame):
     if isinstance(o, (FuncVal, Builtin, BoundMethod)):
         if name == '__name__':
             return getattr(o, 'qualname', getattr(o, 'name', '?'))
+        if name in ('cache_clear', 'cache_info'):
+            return Builtin('lru_cache.' + name, lambda *a: None)   # functools.lru_cache is treated as identity
     raise Unsupported('attribute %s on %s' % (name, type(o).__name__))
 
 
@@ -1580,6 +1582,8 @@ class UUIDModel:
 
 
 def u_uuid4(it):
+    if it.ctx.ghost.get('rand_fixed'):
+        return UUIDModel([0] * 16)
     return UUIDModel([it.ctx.fresh_int('uuid', 0, 255) for _ in range(16)])
 
 
@@ -1597,6 +1601,8 @@ def u_UUID(it, hex=None, bytes=None, bytes_le=None, **k):
 
 
 def r_getrandbits(it, k):
+    if it.ctx.ghost.get('rand_fixed'):
+        return 0
     return it.ctx.fresh_int('rand', 0, (1 << k) - 1)
 
 
